@@ -3,7 +3,7 @@ package main
 import "fmt"
 
 // allCmds are the command forms C12/C18/C19 range over.
-var allCmds = []string{"toma", "topa-stdout", "topa-dir", "samvariants", "variants", "variants-stdin", "snps", "snps-agg", "closest", "closestn", "updownlist", "topranking"}
+var allCmds = []string{"toma", "topa-stdout", "topa-dir", "samvariants", "variants", "variants-stdin", "variants-annoref", "snps", "snps-agg", "closest", "closestn", "updownlist", "topranking"}
 
 type caseSize struct {
 	many bool // many tiny records (reaches the 50+threads buffers)
@@ -29,7 +29,7 @@ func genCmdCase(r *Rand, form string, sz caseSize) *Case {
 		lo = 3
 	}
 	switch form {
-	case "toma", "topa-stdout", "topa-dir", "samvariants":
+	case "toma", "topa-stdout", "topa-dir", "samvariants", "indels":
 		L := r.Range(6, 40)
 		if sz.many {
 			L = r.Range(6, 12)
@@ -37,6 +37,8 @@ func genCmdCase(r *Rand, form string, sz caseSize) *Case {
 		sp := samSpec{L: L, Queries: nrec, MaxRecs: 3, Overlap: form == "toma", Ins: 0.05, Del: 0.04, Skip: 0.02, Junk: 0.1, Clip: 0.2, InsDisjoint: true}
 		if form == "toma" {
 			sp.DelFlip, sp.Conflict = 0.05, 0.05
+		} else if form == "indels" {
+			sp.Ins, sp.Del, sp.MaxRecs = 0.15, 0.12, 2 // both tables should have rows
 		} else {
 			sp.EdgeIns = 0.08
 		}
@@ -63,6 +65,10 @@ func genCmdCase(r *Rand, form string, sz caseSize) *Case {
 			c.Opts.OmitRef = r.P(0.3)
 			c.Opts.OmitIns = r.P(0.3)
 			c.Opts.Start, c.Opts.End = -1, -1
+		case "indels":
+			// `sam indels`: two output destinations (insertions -> the writer, deletions -> a second one)
+			c.Cmd = "indels"
+			c.Opts.MinCount = r.PickInt(1, 1, 2)
 		case "samvariants":
 			c.Cmd = "samvariants"
 			an := genAnno(r, sc.RefSeq, true, 0)
@@ -82,7 +88,7 @@ func genCmdCase(r *Rand, form string, sz caseSize) *Case {
 				c.Opts.Threshold = []float64{0, 0.3, 0.5}[r.Intn(3)]
 			}
 		}
-	case "variants", "variants-stdin":
+	case "variants", "variants-stdin", "variants-annoref":
 		w := r.Range(6, 40)
 		if sz.many {
 			w = r.Range(6, 12)
@@ -95,6 +101,11 @@ func genCmdCase(r *Rand, form string, sz caseSize) *Case {
 		c.Files["msa"] = all.FASTA(lay)
 		c.Opts.RefID = "ref"
 		c.Opts.Stdin = form == "variants-stdin"
+		if form == "variants-annoref" {
+			// no --reference: the alignment holds the queries only, the reference is the annotation's sequence
+			c.Files["msa"] = q.FASTA(lay)
+			c.Opts.RefID = ""
+		}
 		if r.Bool() {
 			c.Files["anno"] = an.GenBank(ref)
 			c.Opts.AnnoSuffix = "gb"
